@@ -24,3 +24,20 @@ package prelude
 //@   uses kv
 //@   modifies W.kv
 //@   ensures W.kv == del(old(W.kv), arg0 + arg1)
+
+// store iterators: reading only (which entries they visit is not modelled here; where that matters the iterating
+// function has an `iterates` contract, A-ITER)
+//@ func github.com/cosmos/cosmos-sdk/types.KVStorePrefixIterator
+//@   effectfree
+//@ func github.com/cosmos/cosmos-sdk/types.KVStoreReversePrefixIterator
+//@   effectfree
+//@ func (github.com/tendermint/tm-db.Iterator).Close
+//@   effectfree
+//@ func (github.com/tendermint/tm-db.Iterator).Valid
+//@   effectfree
+//@ func (github.com/tendermint/tm-db.Iterator).Next
+//@   effectfree
+//@ func (github.com/tendermint/tm-db.Iterator).Value
+//@   effectfree
+//@ func (github.com/tendermint/tm-db.Iterator).Key
+//@   effectfree
